@@ -69,6 +69,8 @@ func pluginFor(tok string) config.PluginConfig {
 		return config.PluginConfig{Name: "custom-auth", Config: map[string]interface{}{"apiKey": "k1"}}
 	case "SIZE":
 		return config.PluginConfig{Name: "size_limit", Config: map[string]interface{}{"max_request_body": 64, "max_response_body": 100000}}
+	case "SIZEL":
+		return config.PluginConfig{Name: "size_limit", Config: map[string]interface{}{"max_request_body": 1000, "max_response_body": 100000}}
 	case "HDR":
 		return config.PluginConfig{Name: "headers", Config: map[string]interface{}{"set": map[string]interface{}{"X-App": "Helios"}, "request_set": map[string]interface{}{"X-From": "LB"}}}
 	case "LOG":
